@@ -13,8 +13,9 @@
      multiset of OnPubTimeout calls, panic) must be exactly the observed one;
      calls the harness saw returned by the end of a phase must have returned
      in the model by then (one-sided).
-   * for tiny scenarios ([c_explore]) EVERY schedule of the machine is explored
-     (with fuel) and the observation must be among the terminal outcomes.
+   * for tiny scenarios ([c_explore]) EVERY schedule of the machine that
+     respects the phases is explored (with fuel) and the observation must be
+     among the final outcomes.
    Definitions only. *)
 From Typ Require Export Lib.Base Chans.PubSubModel.
 
@@ -207,33 +208,42 @@ Definition returned_ok (confs : list config) (e : Z * Z * Z) : bool :=
 
 (* ---- exhaustive exploration of tiny scenarios ---- *)
 
-Definition choices_of (c : config) (th : thread) : list choice :=
+(* Every schedule that respects the phases: inside a phase every enabled step
+   of a released thread or of a sender goroutine, with every choice (buffer,
+   timer, every released receiver as rendezvous partner), is followed; when
+   nothing is enabled the next phase begins. *)
+Definition choices_of (c : config) (allowed : list tid) (th : thread) : list choice :=
   match at_send c th with
-  | Some _ => Plain :: Timer :: map With (seq 0 (length (c_threads c)))
+  | Some _ => Plain :: Timer :: map With allowed
   | None => [Plain]
   end.
 
-Definition successors (c : config) : list config :=
+Definition successors (nprogs : nat) (allowed : list tid) (c : config) : list config :=
   flat_map (fun t =>
     match nth_error (c_threads c) t with
     | None => []
-    | Some th => flat_map (fun ch => match step c t ch with Some c' => [c'] | None => [] end) (choices_of c th)
-    end) (seq 0 (length (c_threads c))).
+    | Some th => flat_map (fun ch => match step c t ch with Some c' => [c'] | None => [] end) (choices_of c allowed th)
+    end) (allowed ++ seq nprogs (length (c_threads c) - nprogs)).
 
-(* Some true: a terminal configuration with outcome [obs] is reachable;
-   Some false: none; None: out of fuel. *)
-Fixpoint explore (fuel nprogs : nat) (obs : outcome) (c : config) : option bool :=
+(* Some true: a final configuration with outcome [obs] is reachable;
+   Some false: none is; None: out of fuel. *)
+Fixpoint explore (fuel nprogs : nat) (obs : outcome) (allowed : list tid) (rest : list (list tid)) (c : config)
+  : option bool :=
   match fuel with
   | O => None
   | S f =>
-    match successors c with
-    | [] => Some (outcome_eqb (outcome_of nprogs c) obs)
+    match successors nprogs allowed c with
+    | [] =>
+        match rest with
+        | [] => Some (outcome_eqb (outcome_of nprogs c) obs)
+        | ph :: rest' => explore f nprogs obs ph rest' c
+        end
     | succs =>
         fold_left (fun acc c' =>
           match acc with
           | Some true => Some true
           | None => None
-          | Some false => explore f nprogs obs c'
+          | Some false => explore f nprogs obs allowed rest c'
           end) succs (Some false)
     end
   end.
@@ -246,5 +256,8 @@ Definition check_case (cs : case) : bool :=
   outcome_eqb (outcome_of nprogs (last confs (init_of cs))) obs &&
   forallb (returned_ok confs) (c_obs_returned cs) &&
   (if c_explore cs then
-     match explore 60 nprogs obs (init_of cs) with Some true => true | _ => false end
+     match explore 200 nprogs obs [] (map (map Z.to_nat) (c_phases cs)) (init_of cs) with
+     | Some true => true
+     | _ => false
+     end
    else true).
